@@ -110,7 +110,9 @@ def gen_cases(ctx):
             for ts, cs in pl[:6]:
                 cases.append({"op": "gpu_gate", "kind": kind, "params": rand_params(rng, kind), "n": n, "ts": list(ts), "cs": list(cs), "v": axis32(n), "orders": orders, "thr": 10})
     for kind in ("P", "RX", "RY", "RZ"):
-        for ang in (math.pi / 2, -math.pi / 2, math.pi / 4, -math.pi / 4, math.pi, -math.pi, 0.0, 3 * math.pi / 2, -3 * math.pi / 2, 2 * math.pi):
+        # ... and the small angles of a long QFT ladder (pi / 2^k, whose cosine rounds to 1 in binary32 while the sine does not vanish)
+        for ang in (math.pi / 2, -math.pi / 2, math.pi / 4, -math.pi / 4, math.pi, -math.pi, 0.0, 3 * math.pi / 2, -3 * math.pi / 2, 2 * math.pi,
+                    math.pi / 2**12, math.pi / 2**14, -math.pi / 2**15, 2e-4, -1e-4, math.pi / 2**18):
             n = rng.choice([2, 3])
             for ts, cs in rng.sample(placements(n, kind), 2):
                 cases.append({"op": "gpu_gate", "kind": kind, "params": [float2bits(ang)], "n": n, "ts": list(ts), "cs": list(cs),
